@@ -30,8 +30,11 @@ def main():
     # 1. translate
     broken, tout = engine.translate()
     for b in broken:
-        ties_broken.append('translator:' + b)
-        log(b)
+        if engine.tie_relevant(pid, b):
+            ties_broken.append('translator:' + b)
+            log(b)
+        else:
+            log('(not in the dependency cone of %s) %s' % (pid, b))
     # 2. prove + model
     # every extraction target of the development (area drivers go stale otherwise when Gen/Tables.v is regenerated)
     targets = [l.strip()[:-2] + '.vo' for l in open(os.path.join(engine.COQ, 'FILES')) if l.strip().startswith('theories/Extract/Extract')]
